@@ -27,4 +27,29 @@ CLAIMS = {
         note=COMMON_NOTE + "Hypothesis kept visible: times are >= 0 (index timestamps start from 0). Log-level refinement theorem in progress."),
 }
 
+CLAIMS.update({
+    'C02': dict(
+        text="Proved in Lean (publish_step): on every state satisfying the invariant, for every batch incl. the empty one and across a "
+             "rollover at any size, Publish returns next+n, appends exactly the batch stamped next..next+n-1 in order, keeps the invariant; "
+             "every live offset is < next. Correspondence: histories biased to 'delete the tail / delete everything -> reopen -> publish', "
+             "PublishOK and NextOffsetOK evaluated on the implementation's results (incl. the offsets written back into the caller's slice).",
+        note=COMMON_NOTE + "Never-reused across delete/reopen additionally needs the delete and open step theorems (in progress); until then "
+             "that part rests on the correspondence."),
+    'C07': dict(
+        text="Proved in Lean on the byte-level model: the record scan shared by Check/Recover returns exactly the valid records (at their "
+             "positions) of any file = valid records ++ anything that does not parse as a record there, reports clean iff nothing follows; "
+             "a tail shorter than a record header is always corruption; Recover is a byte-for-byte no-op on every segment Check accepts. "
+             "Correspondence: real Segment.Check/Recover vs Seg.check/Seg.recover on the same bytes for every truncation length, every "
+             "single-byte corruption position, zero/FF/random tails, every index damage, 4 index configurations; plus Check-after-Recover "
+             "and publish-then-Check through the API.",
+        note=COMMON_NOTE + "V1: truncation only (V1's CRC does not cover the record header). check_iff / check_after_recover theorems in progress."),
+    'C13': dict(
+        text="Proved in Lean for all messages (any key/value bytes <= 64 MiB, any int64 offset/time), both versions: a record reads back "
+             "identical from the position it was written at whatever surrounds it; Size(m) = bytes added; records are back to back at the "
+             "model's positions; index items of the 4 layouts round-trip; the regenerated layout constants equal the documented ones "
+             "(proof obligation by decide). Correspondence: bytes written by the real message/index writers = bytes of the Lean encoder, the "
+             "Lean decoder reads what Go wrote, Go reads back through both reader kinds; Stat vs os.Stat vs the model in API histories.",
+        note=COMMON_NOTE + "Stat exactness over all reachable states rests on the correspondence until stat_spec is proved."),
+})
+
 NOT_APPLICABLE = []
